@@ -115,7 +115,47 @@ def file_lines_guards():
     return checked, failed, rule
 
 
-SCANS = {"file_lines_guards": file_lines_guards, "emitters_no_fs": emitters_no_fs}
+# ---------------------------------------------------------------------------------------------------------------- width subtractions
+WIDTH_NAME = re.compile(r"(width|budget)$")
+REVIEWED_SUB_ASSIGN = {
+    # (file, left operand): why the `-=` cannot underflow
+    ("src/comment.rs", "one_line_width"): "one_line_width was computed as a sum that includes first_sep.len()",
+    ("src/lists.rs", "item_last_line_width"): "guarded by `item_last_line.starts_with(indent_str)`: the width of a prefix is subtracted",
+}
+
+
+def width_subtractions():
+    """C16 (width arithmetic): formatting code never subtracts from a width or budget with a raw `-`: every such subtraction goes through
+    saturating_sub / checked_sub or the checked Shape helpers (whose arithmetic U06 proves).  Lexical rule over all of src/ outside
+    test/config/bin: no token sequence `<name ending in width|budget> -`, `<such name> ( ) -` or `. <such name> -`; `-=` only at reviewed sites."""
+    repo = os.environ.get("VERIF_REPO", "/repo")
+    files = []
+    for dp, _, fns in os.walk(os.path.join(repo, "src")):
+        for fn in fns:
+            rel = os.path.relpath(os.path.join(dp, fn), repo)
+            if fn.endswith(".rs") and not rel.startswith(FORMAT_FILES_EXCLUDE): files.append(rel)
+    failed, checked = [], []
+    ob = "frame scan width_subtractions: no raw subtraction from a width or budget in formatting code (saturating_sub / checked_sub / Shape helpers only)"
+    for rel in sorted(files):
+        sf = SourceFile.get(rel)
+        sig = _sig(sf)
+        checked.append(rel)
+        for k, (i, t) in enumerate(sig):
+            if t.kind != "punct" or t.text not in ("-", "-="): continue
+            # left operand: ident  |  ident ( )
+            j = k - 1
+            if j >= 1 and sig[j][1].text == ")" and sig[j - 1][1].text == "(": j -= 2
+            if j < 0: continue
+            lt = sig[j][1]
+            if lt.kind != "ident" or not WIDTH_NAME.search(lt.text): continue
+            if t.text == "-=" and (rel, lt.text) in REVIEWED_SUB_ASSIGN: continue
+            failed.append({"obligation": ob, "function": rel, "kind": "frame scan hit", "input": "%s:%d `%s %s`" % (rel, sf.line_of(i), lt.text, t.text),
+                           "detail": "a width is subtracted from without a check: in the debug/test profile an underflow is a panic (exit 101), in release it wraps to a huge width"})
+    rule = "no `<name ending in width or budget> -` / `-=` outside %d reviewed `-=` sites, in %d files of formatting code" % (len(REVIEWED_SUB_ASSIGN), len(files))
+    return checked, failed, rule
+
+
+SCANS = {"file_lines_guards": file_lines_guards, "width_subtractions": width_subtractions, "emitters_no_fs": emitters_no_fs}
 
 
 def run_scan(unit_id, name):
